@@ -9,9 +9,11 @@ Decided:
   R2 one regex       the literal macro generated for the type carries the same regex constant
   R3 acceptor        Deserialize: the success payload of deserialize is from_str / parse::<T> applied to the success payload
                      of String::deserialize (normal form of the returned value); the tuple constructor is used only in
-                     from_str and new_unchecked, and in from_str every path to it decides `is_match(Regex::new(<lit>)?, input)
-                     == Ok(true)`; new_unchecked is only called from expansions of the literal macro; regex errors count
-                     as non-match
+                     from_str (its closures included) and new_unchecked, and in from_str every path to a construction (the
+                     tuple constructor, or a call of new_unchecked, which stores its argument) decides
+                     `is_match(Regex::new(<lit>)?, input) == Ok(true)` — by `if`, `match`, `bool::then`, directly or through
+                     a private predicate (the ways through its body that return true); new_unchecked is otherwise only
+                     called from expansions of the literal macro; regex errors count as non-match
   R4 proc-macro      every place in verify_regex (or a private helper of it) that picks expression_when_matched /
                      _unmatched is classified by the path conditions leading to it: matched <=> is_match == Ok(true) on all
                      paths, unmatched <=> excluded on all paths (unwrap_or(false), matches!, match arms alike);
@@ -23,16 +25,21 @@ Decided:
                      helpers): every parse is guarded by a digits-only / no-sign test of the parsed string and, for
                      BuildpackVersion, by !(starts_with('0') && != "0"); split on '.', exactly 3 components all of which are
                      validated (collect::<Option<Vec<_>>> + length 3, or three validated pulls from one iterator and a
-                     fourth pull that is None); BuildpackApi: the parsed strings are the halves of split_once('.') with
+                     fourth pull that is None, or a loop over split('.') that counts its iterations, runs to exhaustion
+                     before any Ok and is followed by `count == 3`: C09_helpers.CountingLoop); BuildpackApi: the parsed strings are the halves of split_once('.') with
                      (value, "0") as the default; Deserialize = try_from(String::deserialize(d)?) in normal form; Display
                      writes the fields in order separated by '.' (format template, or the rendered-text normal form
                      C09_helpers.text_pieces of to_string / join spellings)
   R3'/R5'/R4'/R6' (function deepen) the same string travels through every entry point unchanged and nothing else decides:
      deserialize-input       what Deserialize hands to parse / try_from is the success payload of String::deserialize itself
-     reject-only-unmatched   every Err of from_str lies behind a failed regex match (accepted <=> match, both directions)
+     reject-only-unmatched   every Err of from_str lies behind a failed regex match (accepted <=> match, both directions);
+                             an Err produced by combinators (`cond.then(..).ok_or_else(..)`) is read as the ways its
+                             value is None / Err (C09_helpers.failure_ways)
      derived-constructors    no derived impl other than Clone builds the newtype (derive(Default) yields an unvalidated value)
      field-private           the newtype's string field is not public (no construction / mutation from outside)
-     proc-macro/input-fields the Parse impl of the macro input stores its first / second string literal as written
+     proc-macro/input-fields the Parse impl of the macro input stores its first / second string literal as written (the
+                             reads of the token stream in execution order, also through private generic helpers:
+                             effects of ParseBuffer::parse, C09_helpers.stream_reads)
      new_unchecked-stored    new_unchecked stores its argument unchanged
      display-plain           Display uses plain `{}` placeholders formatted with Display (no {:?}, width, precision)
      macro-args              (token facts) the literal macro hands its parameter itself to verify_regex! and new_unchecked
@@ -40,7 +47,9 @@ Decided:
                              `value` literal of its input, unmodified
      split-input             the string that is split is try_from's argument itself
      component-input         the string handed to the integer parse is the split component / split_once half itself
-     component-value         every Option<u64> the validator yields carries the success payload of that parse
+     component-value         every Option<u64> the validator yields carries the success payload of that parse; without
+                             such a stage, every integer field of the Ok payload is that success payload (also through a
+                             fixed-size array filled slot by slot by the counting loop)
      single-parser           every other function from a string to the type hands the string to try_from
      whole-input-tests       no branch of try_from tests the whole string other than through its components
      parse-gates             conditions about the parsed string on the way to the parse are only the spec's
@@ -185,31 +194,45 @@ def run(ctx, rep):
                     k = a.get('k') if isinstance(a, dict) else None
                     if k and k.get('fn') == t and k.get('defkind', '').startswith('Ctor'):
                         ctor_sites.append((g, c.bb, None))
-        allowed = {f.path, '%s::new_unchecked' % t}
+        # from_str and the closures written in it are one body; a call of new_unchecked there is a construction like the
+        # tuple constructor (new_unchecked-stored: it stores its argument unchanged) and carries the same obligations
+        own = {f.path} | {g.path for g in prog.closures_of(f)}
+        mname = T['types'][t]['macro']
+        nu_sites = [c for c in prog.callers().get('%s::new_unchecked' % t, []) if c.name == '%s::new_unchecked' % t]
+        nu_other = [c for c in nu_sites if not (c.exp and mname in c.macros)]
+        allowed = own | {'%s::new_unchecked' % t}
         stray = [g.path for g, bi, st in ctor_sites if g.path not in allowed]
         rep.check(not stray, 'R3', t + '/constructor-sites', where, 'tuple constructor used only in from_str and new_unchecked', 'unvalidated construction of %s in %s' % (short, stray))
-        for g, bi, st in ctor_sites:
-            if g.path == f.path and st is not None:
-                # the constructor runs only when is_match(Regex::new(<literal>), <input>) is Ok(true); every spelling of
-                # "errors count as non-match" reduces to a true-branch on the success payload of that call:
-                #   Regex::new(..).and_then(|r| r.is_match(v)).unwrap_or(false)   /   match r.is_match(v) { Ok(true) => .. }
-                def by_match(path, f=f):
-                    for lit in path:
-                        ml = H.match_literal(sl, lit)
-                        if ml is None or ml[1] is not True:
-                            continue
-                        rxv, inp = ml[0][2][0], strip(ml[0][2][1])
-                        has_new = rxv[0] == 'unwrap' and strip(rxv)[0] == 'call' and strip(rxv)[1] == 'fancy_regex::Regex::new'
-                        if has_new and inp[0] == 'param' and inp[1] == f.path and inp[2] == 0:
-                            return True
-                    return False
-                # on every path to the constructor (not only in the decisions that dominate it)
-                good = H.holds_on_all(PC.paths(f, bi), by_match)
-                rep.check(good, 'R3', t + '/guard', where, 'constructed only when Regex::new(..).and_then(is_match(value)).unwrap_or(false) is true',
-                          'the constructor in from_str is not guarded by the regex match (errors must count as non-match)')
-                v = sl._rvalue(f, st[2], set(), 0, None)
+        # the constructor runs only when is_match(Regex::new(<literal>), <input>) is Ok(true); every spelling of
+        # "errors count as non-match" reduces to a true-branch on the success payload of that call:
+        #   Regex::new(..).and_then(|r| r.is_match(v)).unwrap_or(false)   /   match r.is_match(v) { Ok(true) => .. }
+        #   / a private predicate fn(regex, value) -> bool tested by `if` or `bool::then` (its ways of returning true)
+
+        def by_match(path, f=f):
+            for lit in path:
+                ml = H.match_literal(sl, lit)
+                if ml is None or ml[1] is not True:
+                    continue
+                rxv, inp = ml[0][2][0], strip(ml[0][2][1])
+                has_new = rxv[0] == 'unwrap' and strip(rxv)[0] == 'call' and strip(rxv)[1] == 'fancy_regex::Regex::new'
+                if has_new and inp[0] == 'param' and inp[1] == f.path and inp[2] == 0:
+                    return True
+            return False
+        builds = [(g, bi, st, None) for g, bi, st in ctor_sites if g.path in own] + [(c.fn, c.bb, None, c) for c in nu_other if c.fn.path in own]
+        for g, bi, st, call in builds:
+            # on every path to the constructor (not only in the decisions that dominate it)
+            good = H.holds_on_all(PC.paths(g, bi), by_match)
+            rep.check(good, 'R3', t + '/guard', where, 'constructed only when Regex::new(..).and_then(is_match(value)).unwrap_or(false) is true',
+                      'the constructor in from_str is not guarded by the regex match (errors must count as non-match)')
+            if st is not None:
+                v = sl._rvalue(g, st[2], set(), 0, None)
                 sv = strip(dict(v[3]).get('0', ('unknown',)))
-                rep.check(sv[0] == 'param' and sv[2] == 0, 'R5', t + '/stored', where, 'stored string <- input slice, unmodified', 'stored value is ' + vstr(sv)[:80])
+            elif call is not None:
+                rows = H.lifted_to(prog, sl, g, [sl.operand(g, call.args[0])], f) if call.args else []
+                sv = strip(rows[0][0]) if len(rows) == 1 and rows[0] is not None else ('unknown',)
+            else:
+                continue
+            rep.check(sv[0] == 'param' and sv[1] == f.path and sv[2] == 0, 'R5', t + '/stored', where, 'stored string <- input slice, unmodified', 'stored value is ' + vstr(sv)[:80])
         # Deserialize via parse: the success payload of deserialize is from_str(success payload of String::deserialize(d)),
         # read off the normal form of the returned value (`?` / and_then / map_err / match spellings coincide);
         # a constructor or new_unchecked in its place is not a call of from_str
@@ -227,10 +250,11 @@ def run(ctx, rep):
                 ok = bool(conv.full and ('parse::<%s>' % t) in conv.full) or conv.res == f.path or conv.name == f.path
         rep.check(ok, 'R3', t + '/deserialize', where, 'Deserialize = String::deserialize -> parse::<%s>' % short, 'Deserialize for %s does not go through parse' % short)
         # new_unchecked callers only from the literal macro
-        mname = T['types'][t]['macro']
-        sites = [c for c in prog.callers().get('%s::new_unchecked' % t, []) if c.name == '%s::new_unchecked' % t]
-        bad = [c.where() for c in sites if not (c.exp and mname in c.macros)]
-        rep.check(not bad, 'R3', t + '/new_unchecked-callers', where, '%d call site(s) of new_unchecked, all from %s! expansions' % (len(sites), mname),
+        # (a call inside from_str is a construction site of from_str: guarded by the match and checked above)
+        sites = nu_sites
+        bad = [c.where() for c in nu_other if c.fn.path not in own]
+        rep.check(not bad, 'R3', t + '/new_unchecked-callers', where, '%d call site(s) of new_unchecked, all from %s! expansions%s'
+                  % (len(sites), mname, '' if len(nu_other) == 0 else ' or behind the regex match in from_str'),
                   'new_unchecked is called outside the literal macro at %s' % bad)
         # Display / Serialize
         dsp = prog.fns.get('<%s as std::fmt::Display>::fmt' % t)
@@ -388,8 +412,23 @@ def run(ctx, rep):
             by_len = by_len and bool(eq)
         by_pull = bool(oks) and pl is not None and all(
             len(row) >= 4 and all('some' in st for st in row[:3]) and 'none' in row[3] for row in pull_rows)
-        rep.check(by_len or by_pull, 'R6', 'BuildpackVersion/three-parts', where,
-                  'Ok only for exactly 3 components (%s)' % ('length == 3' if by_len else '3 pulls are Some, the 4th is None'),
+        #  (c) they are counted by the loop that iterates them: `let mut n = 0; for s in value.split('.') { ..; n += 1 }`,
+        #      every Ok site lies behind the loop's exhaustion and `n == 3` tested after it (C09_helpers.CountingLoop:
+        #      n is the number of elements taken; an element whose iteration does not reach the increment leaves the
+        #      loop for good and cannot reach Ok), and nothing else pulls from that iterator
+        by_count = None
+        for cl in H.counting_loops(tf, sl):
+            L = cl.loop
+            stages_, src = H.split_source(L.collection) if L.collection is not None else (None, ('unknown',))
+            if stages_ != [] or not (src[0] == 'call' and src[1] == 'core::str::<impl str>::split'):
+                continue
+            others = [c for c in tf.calls if c.decl and c.decl.startswith(H.IT) and c is not L.next_call and c.args
+                      and H.split_source(sl.operand(tf, c.args[0]))[1] == src]
+            if not others and oks and all(H.exact_count(tf, sl, cl, bi) == 3 for bi in oks):
+                by_count = cl
+        rep.check(by_len or by_pull or by_count is not None, 'R6', 'BuildpackVersion/three-parts', where,
+                  'Ok only for exactly 3 components (%s)' % ('length == 3' if by_len else '3 pulls are Some, the 4th is None' if by_pull
+                                                             else 'counted by the loop over the components, count == 3 after it'),
                   'a version with a component count other than 3 can be accepted')
         # every component takes part in the decision: split('.') -> map(validate) -> collect::<Option<Vec<_>>>()
         # (one invalid component rejects the whole string); adapters that silently drop or truncate components
@@ -405,9 +444,28 @@ def run(ctx, rep):
             pulled_all = stages == ['map'] and src[0] == 'call' and src[1] == 'core::str::<impl str>::split' and \
                 set(names) <= {'map', 'next'} and names.count('map') == 1 and \
                 all('valid' in st for row in pull_rows for st in row[:3])
-        rep.check(all_or_nothing or pulled_all, 'R6', 'BuildpackVersion/all-components', where,
-                  'components: split -> map(validate) -> %s: any invalid component rejects the version'
-                  % ('collect::<Option<Vec<_>>>' if all_or_nothing else 'three validated pulls and an exhausted iterator'),
+        # (c) an explicit loop over split('.') itself (no adapter in between) that runs to exhaustion before any Ok: every
+        #     component goes through one iteration, and every way round the loop passes the integer parse of the loop
+        #     variable being Ok (its guards are the sign / leading-zero obligations on the paths to that parse)
+        looped_all = False
+        if by_count is not None and not all_or_nothing and not pulled_all:
+            L = by_count.loop
+            elem = canon(strip(H.loop_element(tf, sl, L)))
+            looped_all = bool(L.latches)
+            for lb in L.latches:
+                good = False
+                for cd in conditions(tf, lb, sl):
+                    if cd.kind != 'variant' or cd.subject is None or cd.outcome != frozenset(['Ok']) or cd.sw_bb not in L.body:
+                        continue
+                    pc = H.call_of(prog, cd.subject) if cd.subject[0] == 'call' else None
+                    if pc is not None and is_int_parse(pc) and pc.fn is tf and pc.bb in L.body and tf.dominates(pc.bb, lb) \
+                            and canon(strip(sl.operand(tf, pc.args[0]))) == elem:
+                        good = True
+                looped_all = looped_all and good
+        rep.check(all_or_nothing or pulled_all or looped_all, 'R6', 'BuildpackVersion/all-components', where,
+                  'components: split -> %s: any invalid component rejects the version'
+                  % ('map(validate) -> collect::<Option<Vec<_>>>' if all_or_nothing else 'map(validate) -> three validated pulls and an exhausted iterator' if pulled_all
+                     else 'a loop that validates each one and runs to exhaustion'),
                   'the component pipeline is %s%s: invalid or surplus components can be dropped instead of rejecting the version (e.g. "1.2.3.x" accepted as 1.2.3)'
                   % (names, '' if not coll else ' collecting into ' + (coll[0].full or '').split('collect::')[-1][:60]))
         # leading zero: every path to an integer parse of the validator passes `!(s.starts_with('0') && s != "0")`,
@@ -515,9 +573,22 @@ def deepen(ctx, rep, prog, sl, PC, T, info, regions, all_parses):
         # from_str: Err only behind a failed match
         live = f.reachable(0)
         defs = [d for d in f.whole_defs(0) if d[1] in live]
-        errs = [d for d in defs if d[0] == 'stmt' and d[3]['r'] == 'agg' and d[3].get('variant') == 'Err']
-        oks = [d for d in defs if d[0] == 'stmt' and d[3]['r'] == 'agg' and d[3].get('variant') == 'Ok']
-        if not errs or len(errs) + len(oks) != len(defs) or f.partial_defs(0):
+        # the ways from_str yields Err: the paths to an `Err(..)` construction, and for a result produced by Option / Result
+        # combinators (`cond.then(..).ok_or_else(..)`) the paths to that call joined with the ways its value is Err
+        err_ways, decided = [], not f.partial_defs(0)
+        for d in defs:
+            if d[0] == 'stmt' and d[3]['r'] == 'agg' and d[3].get('variant') in ('Ok', 'Err'):
+                if d[3].get('variant') == 'Err':
+                    err_ways.append(PC.paths(f, d[1]))
+            elif d[0] == 'call':
+                ways = H.failure_ways(PC, sl._call_value(f, d[3], set(), 0))
+                if ways is None:
+                    decided = False
+                elif ways:
+                    err_ways.append([p + w for p in PC.paths(f, d[1]) for w in ways])
+            else:
+                decided = False
+        if not err_ways or not decided:
             rep.unproven('R3', t + '/reject-only-unmatched', where, 'the results of from_str are not all Ok(..) / Err(..) constructions in from_str itself')
         else:
             def unmatched(path, f=f):
@@ -533,7 +604,7 @@ def deepen(ctx, rep, prog, sl, PC, T, info, regions, all_parses):
                         if core[0] == 'call' and core[1] in ('fancy_regex::Regex::new', 'fancy_regex::Regex::is_match'):
                             return True
                 return False
-            good = all(H.holds_on_all(PC.paths(f, d[1]), unmatched) for d in errs)
+            good = all(H.holds_on_all(ps, unmatched) for ps in err_ways)
             if good:
                 rep.holds('R3', t + '/reject-only-unmatched', where, 'every Err of from_str lies behind a failed regex match')
             else:
@@ -615,16 +686,22 @@ def deepen(ctx, rep, prog, sl, PC, T, info, regions, all_parses):
             rep.analysed(g)
             nf = strip(sl.mk_unwrap(sl.local(g, 0), 1))
             fields = dict(nf[3]) if nf[0] == 'agg' else {}
-            lits = [c for c in g.calls if c.full and c.full.endswith('parse::<syn::LitStr>') and c.bb in g.reachable(0)]
-            lits.sort(key=lambda c: len(g.dominators().get(c.bb, ())))
-            chain = all(g.dominates(a.bb, b.bb) and a.bb != b.bb for a, b in zip(lits, lits[1:]))
-            ok = chain and len(lits) >= 2
+            # the tokens taken from the macro's input stream, in execution order, also through private (generic) helpers
+            # (effects of `ParseBuffer::parse` with the stream substituted into parse's terms): the first / second one
+            # that reads a string literal yields `regex` / `value`, and the field is that read's own result
+            reads, sometimes = H.stream_reads(prog, sl, g)
+            lits = [e for ty, e in reads if ty == 'syn::LitStr']
+            ok = len(lits) >= 2 and not any(e.forall is not None for ty, e in reads)
+            # a read that happens only on some runs (an optional trailing comma) must come after the second literal:
+            # otherwise which token is "the second string literal" depends on the run
+            if ok:
+                t2 = H.read_top(lits[1])
+                ok = all(H.read_top(e).fn is g and H.read_top(e) is not t2 and g.dominates(t2.bb, H.read_top(e).bb) for e in sometimes)
             got = {}
             for i, name in enumerate(('regex', 'value')):
                 fv = strip(fields.get(name, ('unknown',)))
                 got[name] = vstr(fv)[:80]
-                c = H.call_of(prog, fv)
-                ok = ok and c is not None and i < len(lits) and c is lits[i] and len(fv[2]) == 1 and H.is_param(fv[2][0], g, 0)
+                ok = ok and i < len(lits) and H.read_result(prog, sl, g, fv, lits[i])
             rep.check(ok, 'R4', 'proc-macro/input-fields', '%s:%d' % (g.file, g.line), 'regex / value of the macro input are its first and second string literal, as written',
                       'the macro input does not carry the literals as written: %s' % got)
         sites = [(g, c) for g in H.region(prog, vr) for c in g.calls if c.is_('fancy_regex::Regex::is_match') and len(c.args) == 2]
@@ -771,6 +848,8 @@ def deepen(ctx, rep, prog, sl, PC, T, info, regions, all_parses):
                 return any(canon(strip(x)) == key for x in walk(l.value) if isinstance(x, tuple))
 
             def spec_gate(l, pv=pv, t=t):
+                if l.kind == 'variant' and pv[0] == 'unwrap' and canon(l.value) == canon(pv[1]) and l.outcome == frozenset(['Some']):
+                    return True     # "there is a component" (the Option that carries it is Some) says nothing about its text
                 if l.kind != 'bool':
                     return False
                 v = l.value
@@ -810,7 +889,35 @@ def deepen(ctx, rep, prog, sl, PC, T, info, regions, all_parses):
                     got.append('%s yields %s' % (g.path.split('::')[-1], vstr(p)[:80]))
                 ok = ok and good
         if not opt:
-            rep.unproven('R6', short + '/component-value', where, 'no function of the validator yields Option<u64>')
+            # no Option<u64> stage: the numbers are read off the value that try_from returns — every integer field of
+            # every Ok payload is the success payload of the integer parse, directly or through a fixed-size array that
+            # the counting loop over the components fills slot by slot (C09_helpers.filled_array_reads)
+            nums, why = [], None
+            cls = H.counting_loops(tf, sl)
+            ok_defs = [d for d in tf.whole_defs(0) if d[0] == 'stmt' and d[3]['r'] == 'agg' and d[3].get('variant') == 'Ok' and d[1] in tf.reachable(0)]
+            if not ok_defs or tf.partial_defs(0):
+                why = 'no Ok(..) construction in try_from'
+            for d in ok_defs:
+                pay = sl._rvalue(tf, d[3], set(), 0, None)
+                pay = dict(pay[3]).get('0') if pay[0] == 'agg' else None
+                built = sl.inline_deep(pay) if pay is not None else None
+                if built is None or built[0] != 'agg' or built[1] != t:
+                    why = 'the Ok payload is not a %s built from its fields: %s' % (short, vstr(built or ('unknown',))[:80])
+                    continue
+                cbb = (H.call_of(prog, pay).bb if pay[0] == 'call' and H.call_of(prog, pay) is not None and H.call_of(prog, pay).fn is tf else d[1])
+                for fname, fv in built[3]:
+                    srcs = None
+                    if fv[0] == 'index':
+                        for cl in cls:
+                            srcs = srcs or H.filled_array_reads(tf, sl, cl, fv, cbb)
+                    nums.extend([(fname, x) for x in (srcs if srcs is not None else [fv])])
+            bad = ['%s <- %s' % (fname, vstr(x)[:80]) for fname, x in nums
+                   if not (x[0] == 'unwrap' and x[1][0] == 'call' and _is_int_parse_call(H.call_of(prog, x[1])))]
+            if why is not None or not nums:
+                rep.unproven('R6', short + '/component-value', where, 'no function of the validator yields Option<u64> and %s' % (why or 'the Ok payload has no fields'))
+            else:
+                rep.check(not bad, 'R6', short + '/component-value', where, 'every number of the accepted value is the success payload of parse::<u64> (a parse error rejects)',
+                          'a component value does not come from a successful integer parse: %s' % bad[:3])
         else:
             rep.check(ok, 'R6', short + '/component-value', where, 'a validated component is the success payload of parse::<u64> (a parse error rejects)',
                       'a component value does not come from a successful integer parse: %s' % got[:3])
@@ -832,6 +939,16 @@ def component_values(prog, sl, tf, fns, t):
                     for v in prog.fn_item_args(c):
                         idx = 1 if v.kind == 'Closure' else 0
                         out.append((v, {canon(('param', v.path, idx, v.local_name(idx + 1)))}))
+            # `for s in value.split('.') { .. }`: the loop variable (payload of the loop's next()) is the component
+            for L in H._loops(g, sl):
+                if L.collection is None:
+                    continue
+                names, src = H.split_source(L.collection)
+                if not (src[0] == 'call' and src[1] == 'core::str::<impl str>::split'):
+                    continue
+                if names:
+                    return None
+                out.append((g, {canon(strip(H.loop_element(g, sl, L)))}))
         return out or None
     pairs = default_pairs(prog, sl, tf)
     if not pairs:
